@@ -9,6 +9,7 @@ import Rivaas.Lemmas.BindSound
 import Rivaas.Lemmas.BindMap
 import Rivaas.Lemmas.BindTyped
 import Rivaas.Lemmas.BindMain
+import Rivaas.Lemmas.BindMultiSound
 import Rivaas.Model.BindObs
 /-
 C04 — Request binding is faithful, total and bounded. Property theorems.
@@ -473,5 +474,28 @@ theorem bindMulti_single (P : Params) (cfg : Cfg) (fs : List Fld) (init : Val) (
   simp only [bindMulti, List.isEmpty_cons, Bool.false_eq_true, if_false, List.length_singleton, beq_self_eq_true,
     if_true, bindPass, ht]
   cases bind P cfg s.kind (.struct fs) init s <;> rfl
+
+
+/-- **C04, several sources (Bind / BindTo, app.Context.Bind).** What `bindMultiSource` returns —
+    for any list of sources of the five kinds in any order, any struct type of the grammar, any
+    well-typed destination — is admitted by the folded oracle `Spec.specMulti`: leaf by leaf the value
+    of the last source that holds the leaf's key, else the declared default, else what the leaf held
+    before; fields that no participating source binds are untouched; every error names an offending
+    field; never a panic. -/
+theorem bindMulti_meets_spec (P : Params) (hP : FloatSane P) (cfg : Cfg) (fs : List Fld) (ivs : List Val)
+    (srcs : List Src) (hw : wts fs ivs = true) (hg : Spec.inGrammarFs fs = true) (hs : ∀ s ∈ srcs, Spec.srcOK s = true) :
+    Spec.specMulti P cfg fs (.struct ivs) srcs (toObs (bindMulti P cfg fs (.struct ivs) srcs)) = true :=
+  lemma_bindMulti_meets_spec P hP cfg fs ivs srcs hw hg hs
+
+/-- non-vacuity: a field with a default, bound from the query and absent in the header source —
+    the value of the query survives (K04i), and the as-shipped outcome (the default) is rejected -/
+def tyDef : List Fld :=
+  [({ name := B "A", exported := true, anon := false, tags := [B "a", [], [], B "X-A", []], dflt := B "7" }, .prim (.int 0))]
+def srcsQH : List Src := [{ kind := .query, kvs := [(B "a", [B "300"])] }, { kind := .header, kvs := [] }]
+
+example : okVal (bindMulti P7 Cfg.default tyDef (.struct (zeroFs tyDef)) srcsQH) = some (.struct [.int 300]) := by decide
+example : okVal (bindMultiAsIs P7 Cfg.default tyDef (.struct (zeroFs tyDef)) srcsQH) = some (.struct [.int 7]) := by decide
+example : Spec.specMulti P7 Cfg.default tyDef (.struct (zeroFs tyDef)) srcsQH (.ok (.struct [.int 300])) = true := by decide
+example : Spec.specMulti P7 Cfg.default tyDef (.struct (zeroFs tyDef)) srcsQH (.ok (.struct [.int 7])) = false := by decide
 
 end Rivaas.C04
